@@ -100,8 +100,7 @@ class SoftwareManager:
         """
         for software in self.software.values():
             if (
-                software.port == port
-                and software.protocol == protocol
+                ((software.port == port and software.protocol == protocol) or port in (software.listen_on_ports or ()))
                 and software.operating_state in {ApplicationOperatingState.RUNNING, ServiceOperatingState.RUNNING}
             ):
                 return True
